@@ -2,7 +2,7 @@ SPECIFICATION Spec
 CONSTANTS
   MaxIn = 2
   MaxOut = 2
-  MaxKern = 2
+  MaxKern = 1
   Vals = {0, 1, 2, 3}
   NBlind = 3
   RPatterns <- Pat1
